@@ -79,6 +79,9 @@ func ParseWriteSingleRegisterRequestTCP(data []byte) (*WriteSingleRegisterReques
 	if err != nil {
 		return nil, err
 	}
+	if len(data) < 12 {
+		return nil, errTCPRequestTooShort(header, data, FunctionWriteSingleRegister)
+	}
 	unitID := data[6]
 	if data[7] != FunctionWriteSingleRegister {
 		tmpErr := NewErrorParseTCP(ErrIllegalFunction, "received function code in packet is not 0x06")
